@@ -141,6 +141,58 @@ def compute_drops(src: Source, lo, hi):
     return edits
 
 
+def compute_let_else_continue(src: Source, lo, hi):
+    """Mechanical normalisation (Verus: "for-loops do not yet support continue"):
+           let PAT = EXPR else { continue; };  REST...   }      (REST = remainder of the enclosing block)
+       ==> if let PAT = EXPR {                 REST... } }
+    Only when the else block consists of the single statement `continue;`. Returns edits like compute_drops."""
+    ts = [t for t in src.toks if lo <= t.pos < hi and t.kind not in R.TRIVIA]
+    edits = []
+    # enclosing-brace map
+    stack, encl = [], {}
+    for i, t in enumerate(ts):
+        if t.kind == R.P and t.text == "{":
+            stack.append(i)
+        elif t.kind == R.P and t.text == "}":
+            o = stack.pop()
+            encl[o] = i
+    def enclosing_open(i):
+        best = None
+        for o, c in encl.items():
+            if o < i < c and (best is None or o > best):
+                best = o
+        return best
+    for i, t in enumerate(ts):
+        if not (t.kind == R.ID and t.text == "continue"):
+            continue
+        if not (i >= 2 and ts[i - 1].text == "{" and ts[i - 2].text == "else" and
+                i + 3 < len(ts) and ts[i + 1].text == ";" and ts[i + 2].text == "}" and ts[i + 3].text == ";"):
+            continue
+        else_i = i - 2
+        blk_open = enclosing_open(else_i)
+        if blk_open is None:
+            continue
+        # the `let` starting this statement: last `let` at the nesting level of blk_open before `else`
+        depth, let_i = 0, None
+        for j in range(else_i - 1, blk_open, -1):
+            u = ts[j]
+            if u.kind == R.P and u.text in (")", "]", "}"): depth += 1
+            elif u.kind == R.P and u.text in ("(", "[", "{"): depth -= 1
+            elif depth == 0 and u.kind == R.P and u.text == ";":
+                break
+            elif depth == 0 and u.kind == R.ID and u.text == "let":
+                let_i = j
+        if let_i is None:
+            continue
+        blk_close = encl[blk_open]
+        line = src.line(ts[let_i].pos)
+        note = f"let-else-continue normalised to if-let around the rest of the block (line {line})"
+        edits.append((ts[let_i].pos, ts[let_i].pos, "if ", note))
+        edits.append((ts[else_i].pos, ts[i + 3].end, "{", note))
+        edits.append((ts[blk_close].pos, ts[blk_close].pos, "} ", note))
+    return edits
+
+
 def apply_edits(text, base, edits):
     out, pos = [], base
     for s, e, rep, _ in sorted(edits):
@@ -256,6 +308,8 @@ def extract_items(unit, side: Sidecar):
                 ins.append((it.head_start, W(Sidecar.txt(side.attr[spec]) + "\n")))
                 used.add(("attr", spec))
             drops = compute_drops(src, lo, hi)
+            if "let-else-continue" in unit.get("rewrites", []):
+                drops += compute_let_else_continue(src, lo, hi)
             drops = [d for d in drops if not any(r[0] <= d[0] < r[1] for r in removed_ranges)]
             edits = drops + removed_ranges + [(p, p, t, "woven") for p, t in ins]
             # stable order: at equal offsets, keep insertion order
